@@ -63,6 +63,21 @@ func (r c18Ref) key() string {
 	return sb.String()
 }
 
+// c18UIDLen: the API takes UIDs of any length; 16 bytes is what clients use. Other lengths are the first
+// bytes of, or an extension of, the usual test UIDs.
+var c18UIDLen = 16
+
+func c18uid(u int) []byte {
+	b := uidOf(u)
+	if c18UIDLen <= 16 {
+		return b[:c18UIDLen]
+	}
+	for len(b) < c18UIDLen {
+		b = append(b, byte(0x40+len(b)))
+	}
+	return b
+}
+
 type c18Op struct {
 	Kind   string           `json:"kind"` // post, mismatch, garbage, badcap, get, list, delete, reopen
 	UID    int              `json:"uid"`
@@ -160,7 +175,7 @@ func c18Body(uid []byte, fields map[string]int64) []byte {
 func c18ReadBack(mgr usermanager.UserManager, ref c18Ref) string {
 	router := usermanager.APIRouterOf(mgr)
 	for u := 0; u < 2; u++ {
-		uid := uidOf(u)
+		uid := c18uid(u)
 		rec := httptest.NewRecorder()
 		perr := catch(func() { router.ServeHTTP(rec, httptest.NewRequest("GET", "/admin/users/"+b64url(uid), nil)) })
 		if perr != "" {
@@ -288,8 +303,8 @@ func c18Apply(path string, op c18Op, ref c18Ref) (next c18Ref, msg string) {
 	mgr := c18Open(path)
 	defer func() { mgr.Close() }()
 	router := usermanager.APIRouterOf(mgr)
-	uid := uidOf(op.UID)
-	other := uidOf(1 - op.UID)
+	uid := c18uid(op.UID)
+	other := c18uid(1 - op.UID)
 	do := func(method, url string, body []byte) *httptest.ResponseRecorder {
 		rec := httptest.NewRecorder()
 		var rd io.Reader
@@ -379,6 +394,8 @@ func init() {
 		rep := &vx.Report{Job: c.Job, Engine: "bfs", Outcomes: map[string]int64{}, Exhaustive: true}
 		depth := c.PI("depth", 2)
 		full := c.P("alphabet", "full") == "full"
+		c18UIDLen = c.PI("uidlen", 16)
+		defer func() { c18UIDLen = 16 }()
 		shard, shards := c.PI("shard", 0), c.PI("shards", 1)
 		dir := fmt.Sprintf("/dev/shm/vx-c18-%d", os.Getpid())
 		os.RemoveAll(dir)
@@ -473,6 +490,10 @@ func init() {
 				jobs = append(jobs, vx.Job{Scenario: "adminapi.bfs", Params: vx.P("depth", "3", "alphabet", "reduced", "shard", fmt.Sprint(s), "shards", "32"), BudgetS: 900, Weight: 8})
 				jobs = append(jobs, vx.Job{Scenario: "adminapi.bfs", Params: vx.P("depth", "4", "alphabet", "reduced", "shard", fmt.Sprint(s), "shards", "32"), BudgetS: 600, Weight: 9})
 			}
+		}
+		// UIDs that are not 16 bytes long (the API accepts any length)
+		for _, l := range []string{"4", "20"} {
+			jobs = append(jobs, vx.Job{Scenario: "adminapi.bfs", Params: vx.P("depth", "2", "alphabet", "reduced", "uidlen", l), Weight: 4})
 		}
 		return jobs
 	})
